@@ -249,6 +249,9 @@ class Schema(dict, metaclass=LogicalMeta):
                 raise e.__class__(msg) from e
             else:
                 warnings.warn(msg)
+            if super().__contains__(field.name):
+                # a value computed from other dependency values must not stay
+                super().__delitem__(field.name)
             return
 
         value = field.parse_output_value(  # parse @property result also
@@ -256,6 +259,8 @@ class Schema(dict, metaclass=LogicalMeta):
         )
 
         if unprovided(value):
+            if super().__contains__(field.name):
+                super().__delitem__(field.name)
             return
 
         if not field.is_no_output(value, options=context.options):
@@ -330,28 +335,38 @@ class Schema(dict, metaclass=LogicalMeta):
         value = field.parse_value(value, context=context)
         context.raise_error()  # collect_errors must not let an unparsed assignment through
 
-        if field.property:
-            if callable(setter):
-                # @property.fset
-                setter(self, value)
+        # the assignment and the recomputation of the dependant properties take effect together or not at all
+        data_before, attrs_before = dict.copy(self), dict(self.__dict__)
+        try:
+            if field.property:
+                if callable(setter):
+                    # @property.fset
+                    setter(self, value)
 
-            # force calculate property
-            self.__coerce_property__(field, context=context)
-        else:
-            if field.is_no_output(value, options=self.__options__):
-                self.__dict__[field.attname] = value
-                # no output
-                if field.name in self:
-                    super().__delitem__(field.name)
+                # force calculate property
+                self.__coerce_property__(field, context=context)
             else:
-                super().__setitem__(field.name, value)
+                if field.is_no_output(value, options=self.__options__):
+                    self.__dict__[field.attname] = value
+                    # no output
+                    if field.name in self:
+                        super().__delitem__(field.name)
+                else:
+                    super().__setitem__(field.name, value)
 
-        if field.dependants:
-            # need to update the dependant properties
-            for dep in field.dependants:
-                dep_field = self.__parser__.get_field(dep)
-                if dep_field and dep_field.property:
-                    self.__coerce_property__(dep_field, context=context)
+            if field.dependants:
+                # need to update the dependant properties
+                for dep in field.dependants:
+                    dep_field = self.__parser__.get_field(dep)
+                    if dep_field and dep_field.property:
+                        self.__coerce_property__(dep_field, context=context)
+            context.raise_error()  # a property result that does not convert, collected or not
+        except Exception:
+            dict.clear(self)
+            dict.update(self, data_before)
+            self.__dict__.clear()
+            self.__dict__.update(attrs_before)
+            raise
 
     def __setitem__(self, alias: str, value):
         if self.__options__.immutable:
